@@ -184,6 +184,20 @@ pub fn gen_c01(out: &mut dyn Write, thorough: bool, seed: u64) {
             writeln!(out, "H {CFG} {mt}^00 Fraw:{},pred:0,obs:SB,spec:0 c01", hexs(t)).unwrap();
         }
     }
+    // dictionaries as training produces them (words of one length share one weight vector; lengths around 8)
+    for _ in 0..(if thorough { 100 } else { 12 }) {
+        let (mut m, alpha) = gen_model(&mut r, &GenOpts { windows: &[1, 2, 3, 4], max_ngrams: 4, max_words: 0, max_word_len: 2 });
+        m.dict = trained_like_dict(&mut r, &alpha);
+        let mt = m.to_text();
+        for k in 0..4 {
+            let mut text = gen_text(&mut r, &m, &alpha, 10);
+            for d in m.dict.iter().skip(k).step_by(2) {
+                text.push_str(&d.0);
+                text.push(*r.pick(&alpha));
+            }
+            writeln!(out, "H {CFG} {mt}^00 Fraw:{},pred:0,obs:SB,spec:0 c01", hexs(&text)).unwrap();
+        }
+    }
     // long texts (hundreds of characters): buffer growth, positions beyond 255, many matches
     let lopts = GenOpts { windows: &[1, 2, 3, 4, 9], max_ngrams: 6, max_words: 3, max_word_len: 6 };
     for i in 0..(if thorough { 40 } else { 4 }) {
@@ -196,6 +210,24 @@ pub fn gen_c01(out: &mut dyn Write, thorough: bool, seed: u64) {
         let text: String = text.chars().take(len).collect();
         writeln!(out, "H {CFG} {}^00 Fraw:{},pred:0,obs:SB,spec:0 c01", m.to_text(), hexs(&text)).unwrap();
     }
+}
+
+/// a dictionary as training produces it: several words of each length, all words of one length bucket with the SAME
+/// weight vector, lengths on both sides of the 8-entry fixed layout
+pub fn trained_like_dict(r: &mut Rng, alpha: &[char]) -> Vec<(String, Vec<i32>, String)> {
+    let mut out: Vec<(String, Vec<i32>, String)> = vec![];
+    let (l, i, rt) = (r.range(-40, 40) as i32, r.range(-40, 40) as i32, r.range(-40, 40) as i32);
+    for len in [2usize, 7, 8, 8, 9, 9, 9, 12] {
+        let w: String = (0..len).map(|_| *r.pick(alpha)).collect();
+        if out.iter().any(|d| d.0 == w) {
+            continue;
+        }
+        let mut ws = vec![i; len + 1];
+        ws[0] = l;
+        ws[len] = rt;
+        out.push((w, ws, String::new()));
+    }
+    out
 }
 
 /// a second model over the same alphabet with fewer patterns and other weights (every other n-gram of `m`, signs flipped)
@@ -256,7 +288,17 @@ pub fn gen_c06(out: &mut dyn Write, thorough: bool, seed: u64) {
                 let hot = n_c - 1 - r.below(3);
                 tm.bias.extend((0..n_c).map(|j| if j == hot { 9 } else { (j % 7) as i32 - 3 }));
                 let _ = old_total;
-                // existing n-gram weight vectors keep their length: they simply do not reach the new classes
+                // every tag n-gram gets (zero) weights for the new classes, so that the model stays well-formed
+                for g in tm.char_ngrams.iter_mut() {
+                    for w in g.weights.iter_mut() {
+                        w.1.extend(std::iter::repeat(0).take(n_c));
+                    }
+                }
+                for g in tm.type_ngrams.iter_mut() {
+                    for w in g.weights.iter_mut() {
+                        w.1.extend(std::iter::repeat(0).take(n_c));
+                    }
+                }
             }
             let token = mm.tag_models[0].token.clone();
             let text = format!("{}{}{}", alpha[0], token, alpha[alpha.len() - 1]);
@@ -350,14 +392,14 @@ pub fn gen_c08(out: &mut dyn Write, thorough: bool, seed: u64) {
         // long texts on one sentence object: a long text, then a variant of it (one character replaced, so that positions that
         // had a match have none), tagged — lengths around the word sizes of bitmaps and blocks
         if group_no < (if thorough { 40 } else { 8 }) {
-            for &len in &[33usize, 40, 65, 70, 129, 257] {
+            for &len in &[33usize, 40, 40, 65, 70, 70, 129, 257] {
                 let mut long1 = String::new();
                 while long1.chars().count() < len {
                     long1.push_str(&gen_text_tags(&mut r, &m1, &alpha, 14));
                 }
                 let long1: String = long1.chars().take(len).collect();
                 let at = r.range(1, len as i64 - 1) as usize;
-                let long2: String = long1.chars().enumerate().map(|(i, c)| if i == at || i == (at ^ 32) % len { '〓' } else { c }).collect();
+                let long2: String = long1.chars().enumerate().map(|(i, c)| if i == at { '〓' } else { c }).collect();
                 let k = *r.pick(&[0usize, 2, 4]);
                 writeln!(out, "H {CFG} {} raw:{},pred:{k},fill,raw:{},pred:{k},fill,obs c08", specs.join("!"), hexs(&long1), hexs(&long2)).unwrap();
             }
@@ -503,6 +545,9 @@ pub fn gen_c13(out: &mut dyn Write, thorough: bool, seed: u64) {
 /// C14: a predictor and its serialize -> deserialize round trip (all scorer variants), with trailing bytes
 pub fn gen_c14(out: &mut dyn Write, thorough: bool, seed: u64) {
     use crate::model::{gen_tag_models, gen_text_tags};
+    // very large predictors (oracle-only): more than 2^16 dictionary words, and a serialised form beyond 16 MiB
+    writeln!(out, "BIG BD 70000 {seed} c14").unwrap();
+    writeln!(out, "BIG BD {} {seed} c14", if thorough { 600000 } else { 300000 }).unwrap();
     use crate::pred::build_pred;
     use crate::util::hex;
     let mut r = Rng::new(seed ^ 0xC14);
@@ -527,6 +572,9 @@ pub fn gen_c14(out: &mut dyn Write, thorough: bool, seed: u64) {
                 let k = r.below(w.len());
                 w[k] = 0;
             }
+        }
+        if i % 5 == 1 {
+            m.dict = trained_like_dict(&mut r, &alpha);
         }
         let mt = m.to_text();
         let pt = if with_tags || r.chance(1, 2) { "1" } else { "0" };
